@@ -102,7 +102,8 @@ class LockCheck:
         self.memo: Dict[Tuple[str, str], Optional[List[Tuple[ast.AST, str]]]] = {}
 
     def unlocked_reads(self, f: Func, tvar: str) -> List[Tuple[ast.AST, str]]:
-        """Structural reads of the tree named tvar in f that happen outside a
+        """Structural reads of the tree named tvar in f (through any expression
+        rooted at it: tvar._root..., a local alias, ...) that happen outside a
         `with tvar:` region and are not delegated to a callee that locks."""
         key = (f.site, tvar)
         if key in self.memo:
@@ -111,44 +112,47 @@ class LockCheck:
         self.memo[key] = None
         ctx = self.ctx
         env = ctx.env
+        m = ctx.model
         regions = _with_regions(f, tvar)
+        rt = "self" if tvar == f.self_name else f"p:{tvar}"
+
+        def rooted(e: ast.AST) -> bool:
+            return rt in env.roots(f, e) and bool(env.types(f, e) & {NODE, TREE})
+
         bad: List[Tuple[ast.AST, str]] = []
         for n in iter_own(f.node):
             why = None
-            if isinstance(n, ast.Attribute) and isinstance(n.ctx, ast.Load) and isinstance(n.value, ast.Name) and n.value.id == tvar:
-                if n.attr in STRUCT_READ_ATTRS:
-                    why = f"reads {tvar}.{n.attr}"
-                else:
-                    par = ctx.model.parent_of(n)
-                    if isinstance(par, ast.Call) and par.func is n:
-                        continue  # handled as a call below
-                    # property that reads structure (children, count, system_root ...)
-                    for cn in ctx.model.subclasses("Tree"):
-                        g = ctx.model.lookup(cn, n.attr)
-                        if g is not None and g.kind == "property" and g in self.reads:
-                            why = f"reads property {tvar}.{n.attr}"
+            if isinstance(n, ast.Attribute) and isinstance(n.ctx, ast.Load) and n.attr in ("_node_by_id", "_nodes_by_data_id", "_children") and rooted(n.value):
+                why = f"reads {norm(n)}"
+            elif isinstance(n, ast.Attribute) and isinstance(n.ctx, ast.Load) and rooted(n.value):
+                par = m.parent_of(n)
+                if not (isinstance(par, ast.Call) and par.func is n):
+                    bt = env.types(f, n.value)
+                    for base, tag in (("Node", NODE), ("Tree", TREE)):
+                        if tag in bt:
+                            for cn in m.subclasses(base):
+                                g = m.lookup(cn, n.attr)
+                                if g is not None and g.kind == "property" and g in self.reads and g.name not in ("system_root", "tree"):
+                                    why = f"reads property {norm(n)}"
             elif isinstance(n, ast.Call):
-                callees = env.callees(f, n)
-                for g, recv in callees:
+                for g, recv in env.callees(f, n):
                     if g not in self.reads or g.name == "__init__":
                         continue
-                    # how does the tree reach the callee?
                     how = None
-                    if recv is not None and isinstance(recv, ast.Name) and recv.id == tvar:
+                    if recv is not None and rooted(recv):
                         how = g.self_name
                     elif isinstance(n.func, ast.Attribute) and isinstance(n.func.value, ast.Call) and isinstance(n.func.value.func, ast.Name) \
                             and n.func.value.func.id == "super" and tvar == f.self_name:
                         how = g.self_name
                     else:
+                        pos = g.positional_params()
+                        if g.cls is not None and recv is not None:
+                            pos = pos[1:]
                         for i, a in enumerate(n.args):
-                            if isinstance(a, ast.Name) and a.id == tvar:
-                                pos = g.positional_params()
-                                if g.cls is not None and recv is not None:
-                                    pos = pos[1:]
-                                if i < len(pos):
-                                    how = pos[i]
+                            if rooted(a) and i < len(pos):
+                                how = pos[i]
                         for k in n.keywords:
-                            if isinstance(k.value, ast.Name) and k.value.id == tvar and k.arg:
+                            if k.arg and rooted(k.value):
                                 how = k.arg
                     if how is None:
                         continue
@@ -156,22 +160,17 @@ class LockCheck:
                     if sub:
                         why = f"calls {g.qualname}() which reads the tree without taking its lock ({sub[0][1]})"
                         break
-            elif isinstance(n, (ast.For, ast.comprehension)) and isinstance(n.iter, ast.Name) and n.iter.id == tvar:
-                why = f"iterates {tvar}"
-            elif isinstance(n, ast.Call) and False:
-                pass
-            elif isinstance(n, ast.YieldFrom) and isinstance(n.value, ast.Name) and n.value.id == tvar:
-                why = f"iterates {tvar}"
+                if why is None and isinstance(n.func, ast.Name) and n.func.id in ("list", "len", "sorted", "tuple", "iter", "enumerate") and n.args and rooted(n.args[0]):
+                    why = f"{n.func.id}({norm(n.args[0])}) walks the tree"
+            elif isinstance(n, (ast.For, ast.comprehension)) and rooted(n.iter) and not isinstance(n.iter, ast.Call):
+                why = f"iterates {norm(n.iter)}"
+            elif isinstance(n, ast.YieldFrom) and rooted(n.value) and not isinstance(n.value, ast.Call):
+                why = f"iterates {norm(n.value)}"
             if why is None:
                 continue
             if _inside(ctx, n, regions, f):
                 continue
             bad.append((n, why))
-        # list(tree) / len(tree) / sorted(tree) style reads
-        for n in iter_own(f.node):
-            if isinstance(n, ast.Call) and isinstance(n.func, ast.Name) and n.func.id in ("list", "len", "sorted", "tuple", "iter", "enumerate"):
-                if any(isinstance(a, ast.Name) and a.id == tvar for a in n.args) and not _inside(ctx, n, regions, f):
-                    bad.append((n, f"{n.func.id}({tvar}) walks the tree"))
         self.memo[key] = bad
         return bad
 
@@ -187,7 +186,7 @@ def zz_nested_locks(a: Tree, b: Tree) -> None:
 '''
 
 
-@rule("LOCK", ["C18", "C14", "C13"], floor=12, section="3.12")
+@rule("LOCK", ["C18", "C14", "C13", "C05", "C07", "C08", "C17"], floor=12, section="3.12")
 def lock(ctx: Ctx) -> List[Ob]:
     """lockset: every structural read of a snapshot operation happens inside `with tree:` (or is delegated to a callee that locks); __enter__/__exit__ acquire/release the tree's RLock on every path; the lock object is created once as an RLock; no snapshot operation takes a second tree's lock"""
     obs: List[Ob] = []
@@ -206,7 +205,8 @@ def lock(ctx: Ctx) -> List[Ob]:
     entries.append((m.func("tree_to_dotfile"), "tree"))
     for g, tvar in entries:
         bad = lc.unlocked_reads(g, tvar)
-        props = ["C18", "C14"] if g.name == "to_dict_list" else ["C18"]
+        props = ["C18", "C14"] if g.name == "to_dict_list" else ["C18", "C07", "C08"] if g.name in ("copy", "copy_to", "filtered") \
+            else ["C18", "C17"] if g.name in ("tree_to_dotfile", "to_dotfile") else ["C18", "C05"] if g.name == "save" else ["C18"]
         if not bad:
             obs.append(ctx.ob("LOCK", props, g, f"{g.qualname}: all structural reads of `{tvar}` are under its lock", None, True))
         for n, why in bad:
@@ -233,7 +233,7 @@ def lock(ctx: Ctx) -> List[Ob]:
                     why = f"the generator `{norm(c)}` is created under the lock but consumed at L{outside[0].lineno}, after the lock was released"
             elif isinstance(par, ast.Return):
                 why = f"the generator `{norm(c)}` is returned from inside the region: it is consumed after the lock was released"
-            obs.append(ctx.ob("LOCK", ["C18"], g, f"lazy walk {gens[0].qualname}() is consumed inside the critical section of {g.qualname}", c, why is None,
+            obs.append(ctx.ob("LOCK", ["C18", "C17"] if "dot" in g.name else ["C18", "C05"], g, f"lazy walk {gens[0].qualname}() is consumed inside the critical section of {g.qualname}", c, why is None,
                               "" if why is None else why + ": the tree is read outside `with tree:`"))
     # LOCK-1c: one snapshot = one critical section on every path
     for g, tvar in entries:
